@@ -126,24 +126,51 @@ class BorrowedResources(BaseResources[T]):
         # do not postpone if we can resume immediately
         if not self._resources._available >= self._debits:
             await (self._resources._available >= self._debits)
-        await self._resources.__remove_resources__(self._debits)
-        await self.__insert_resources__(self._debits)
+        # Moving resources suspends after each step. If we are interrupted
+        # at such a point the block is not entered and __aexit__ never runs;
+        # hand back whatever has been moved so far.
+        entered = False
+        try:
+            await self._resources.__remove_resources__(self._debits)
+            entered = True
+            await self.__insert_resources__(self._debits)
+        except BaseException:
+            self.__release_detached__(own=entered)
+            raise
         return self
 
     async def __aexit__(self, exc_type, exc_val, exc_tb):
         if exc_type is GeneratorExit:
             # we are killed forcefully and cannot perform async operations
-            # dispatch a new activity to release our resources eventually
+            self.__release_detached__(own=True)
+        else:
+            returned = False
+            try:
+                await self.__remove_resources__(self._debits)
+                returned = True
+                await self._resources.__insert_resources__(self._debits)
+            except BaseException:
+                # interrupted while releasing: finish what has not been moved yet
+                if not returned:
+                    self.__release_detached__(own=False)
+                raise
+            # TODO: forcefully kill off anyone holding our resources?
+
+    def __release_detached__(self, own: bool):
+        """
+        Give back resources without awaiting
+
+        Dispatches new activities to release our resources eventually, that is
+        during the current time step. If ``own`` is true the resources are still
+        credited to this block, otherwise only the parent has to get them back.
+        """
+        if own:
             __USIM_STATE__.loop.schedule(
                 self.__remove_resources__(self._debits)
             )
-            __USIM_STATE__.loop.schedule(
-                self._resources.__insert_resources__(self._debits)
-            )
-        else:
-            await self.__remove_resources__(self._debits)
-            await self._resources.__insert_resources__(self._debits)
-            # TODO: forcefully kill off anyone holding our resources?
+        __USIM_STATE__.loop.schedule(
+            self._resources.__insert_resources__(self._debits)
+        )
 
     def borrow(self, **amounts: T) -> 'BorrowedResources[T]':
         borrowing = super().borrow(**amounts)
